@@ -924,12 +924,129 @@ class Audit:
         s.reason = "in the context of each of its %d call sites (helper inlined into the caller): %s" % (len(sites), "; ".join(sorted(set(reasons)))[:200])
         return True
 
+    def _len_after_push(self, B, s, m):
+        """a = Vec::len(&v), and on the only way into the block that takes the length the previous call is v.push(..)
+        (straight line: every block in between has one predecessor and calls nothing that could shrink v)"""
+        pl = m["a"].get("pl") if isinstance(m.get("a"), dict) else None
+        if not pl or pl["p"]:
+            return False
+        la = pl["l"]
+        # through a named copy: let len = v.len(); .. len - 1
+        for _ in range(3):
+            ds = B.defs().get(la, [])
+            if len(ds) == 1 and ds[0][1] != "term" and ds[0][2]["rv"]["k"] == "use" and ds[0][2]["rv"]["a"].get("pl") and not ds[0][2]["rv"]["a"]["pl"]["p"]:
+                la = ds[0][2]["rv"]["a"]["pl"]["l"]
+            else:
+                break
+        ds = B.defs().get(la, [])
+        if len(ds) != 1 or ds[0][1] != "term":
+            return False
+        bi, _, node = ds[0]
+        if not (node.get("callee") or "").endswith("Vec::<T, A>::len") or not node.get("args"):
+            return False
+
+        def vec_of(op):
+            sy = B.sym_op(op, through_vars="pure")
+            while sy[0] in ("ref", "deref"):
+                sy = sy[1]
+            return M.show(sy)
+        v = vec_of(node["args"][0])
+        preds = B.preds()
+        cur, steps = bi, 0
+        while steps < 12:
+            ps = [p for p in preds[cur] if not B.blocks[p].get("cleanup")]
+            if len(ps) != 1:
+                return False
+            cur = ps[0]
+            steps += 1
+            tt = B.blocks[cur]["term"]
+            if tt["k"] == "call":
+                cal = tt.get("callee") or ""
+                if cal.endswith("Vec::<T, A>::push") and tt.get("args") and vec_of(tt["args"][0]) == v:
+                    return True
+                if cal.endswith(("::clone", "Rc::<T>::new", "Rc::<T, A>::new")) or "::clone" in cal:
+                    continue
+                return False
+            if tt["k"] not in ("goto", "drop", "assert"):
+                return False
+        return False
+
+    def _flag_after_push(self, s):
+        B = self.body(s.fn)
+        t = B.blocks[s.bb]["term"]
+        msg = t.get("msg") if t["k"] == "assert" else None
+        if not (isinstance(msg, dict) and msg.get("op") == "Sub" and isinstance(msg.get("a"), dict) and msg["a"].get("pl")):
+            return False
+        # the vector whose length is decremented: a = Vec::len(&v)
+        la = msg["a"]["pl"]["l"]
+        vec = None
+        for (bi, si, node) in B.defs().get(la, []):
+            if si == "term" and (node.get("callee") or "").endswith("Vec::<T, A>::len") and node.get("args"):
+                sy = B.sym_op(node["args"][0], through_vars=False)
+                while sy[0] in ("ref", "deref"):
+                    sy = sy[1]
+                if sy[0] in ("var", "tmp"):
+                    # through one reborrow temp
+                    l0 = sy[2] if sy[0] == "var" else sy[1]
+                    ds = B.defs().get(l0, [])
+                    if sy[0] == "tmp" and len(ds) == 1 and ds[0][1] != "term" and ds[0][2]["rv"]["k"] == "ref":
+                        l0 = ds[0][2]["rv"]["pl"]["l"]
+                    vec = l0
+        if vec is None:
+            return False
+        flags = []
+        for sy, vals, dty in M.dominating_conditions(B, s.bb):
+            if dty == "bool" and sy[0] == "var" and (vals == (1,) or vals == ("not", (0,))) and len(B.defs().get(sy[2], [])) > 1:
+                flags.append(sy[2])
+        for fl in flags:
+            ok = True
+            n_true = 0
+            for (bi, si, node) in B.defs().get(fl, []):
+                if si == "term":
+                    ok = False
+                    break
+                rv = node["rv"]
+                if not (rv["k"] == "use" and rv["a"]["k"] == "const" and isinstance(rv["a"].get("val"), bool)):
+                    ok = False
+                    break
+                if rv["a"]["val"] is True:
+                    n_true += 1
+                    # straight-line continuation must push to the vector
+                    cur, steps, found = bi, 0, False
+                    while cur is not None and steps < 16:
+                        tt = B.blocks[cur]["term"]
+                        if tt["k"] == "call" and (tt.get("callee") or "").endswith("Vec::<T, A>::push") and tt.get("args"):
+                            a0 = tt["args"][0]
+                            tgt = a0["pl"]["l"] if a0.get("pl") else None
+                            ds = B.defs().get(tgt, [])
+                            if tgt is not None and len(ds) == 1 and ds[0][1] != "term" and ds[0][2]["rv"]["k"] == "ref" and ds[0][2]["rv"]["pl"]["l"] == vec:
+                                found = True
+                                break
+                        nx = [x for x in B.succ(cur) if not B.blocks[x].get("cleanup")]
+                        if len(nx) != 1:
+                            break
+                        cur, steps = nx[0], steps + 1
+                    if not found:
+                        ok = False
+                        break
+            if ok and n_true >= 1:
+                return True
+        return False
+
     def _requires(self, fn, reqs, site=None):
         """each required fragment must occur in the canonical rendering of the function's HIR body; a requirement
         `cond:<regex>=True|False` is a condition that must dominate the site with that value (read from the MIR: it does not
         matter how the guard is spelled, `!(a && b)`, `!a || !b`, nested ifs)"""
         if not reqs:
             return None
+        if any(r == "flagpush:" for r in reqs):
+            # `v.len() - 1` under `if flag`, where the mutable flag becomes true only where an element is pushed to v:
+            # the site is dominated by flag == true, and every `flag = true` is followed, in straight line, by v.push(..)
+            if site is None or site.fn != fn or not self._flag_after_push(site):
+                return "flagpush:"
+            reqs = [r for r in reqs if r != "flagpush:"]
+            if not reqs:
+                return None
         conds = [r for r in reqs if r.startswith("cond:")]
         if conds:
             if site is None:
@@ -1030,7 +1147,11 @@ class Audit:
             if op == "Sub" and ty in UNSIGNED:
                 goal = cx.lin(a).add(cx.lin(b), -1)
                 r = prove_ge0(goal, facts, cx.nonneg)
-                return ("sub: " + r) if r else None
+                if r:
+                    return "sub: " + r
+                if cx.lin(b).is_const() and cx.lin(b).k == 1 and self._len_after_push(B, s, m):
+                    return "sub: v.len() - 1 where the length was taken right after v.push(..) with nothing in between"
+                return None
             if op in ("Shl", "Shr"):
                 lb = cx.lin(b)
                 aty = B_ty(B, m["a"]) or cx.ty_of(a)
